@@ -29,7 +29,13 @@ def run(repo, run, tier):
                            "drift_mask = 1 - kick_mask, slope evaluated at the running partial state; every class "
                            "flagged symplectic is one of the two kinds checked here", floor=4)
     prow, _ = extract.propagated_row(repo)
-    dcol, kcol, upd, stepfn = extract.splitting_columns(repo)
+    try:
+        dcol, kcol, upd, stepfn = extract.splitting_columns(repo)
+    except AnalysisError:
+        # the shape of the drift/kick update is not one the table rules can read: the rules about HOW THE MASK GETS THERE do not need it and are judged first,
+        # so that a violation they establish is reported (report.run_rules keeps it when the remainder cannot be decided)
+        _mask_rules(repo, run)
+        raise
     run.analysed_fn(extract.ITYPES, stepfn)
     nflag = 0
     for name in exp + imp:
@@ -96,6 +102,11 @@ def run(repo, run, tier):
     # a step handed back with unconverged stages is neither; the acceptance typestate of C02.4 is therefore a necessary condition here too
     from .c02 import newton
     newton(repo, run, rule_id="C10.5")
+    _mask_rules(repo, run)
+
+
+
+def _mask_rules(repo, run):
     kick_mask_plumbing(repo, run)
     kick_mask_dataflow(repo, run)
     default_mask(repo, run)
@@ -401,6 +412,26 @@ def kick_mask_dataflow(repo, run):
                 if isinstance(t, _ast.Subscript) and is_self_attr(t.value, P) and on_user_path(st):
                     index_stores.append(st)
     ok1 = len(binds) == 1 and isinstance(binds[0], _ast.Assign) and elementwise(binds[0].value)
+
+    def copies(e):
+        """does the conversion chain contain a call that always returns a new array (astype / copy / array / a logical or arithmetic result)?  asarray alone returns
+        the caller's own object when it already is an array of the requested dtype"""
+        if isinstance(e, _ast.Call):
+            f = (fname(e) or "").split(".")[-1]
+            if f in ("astype", "copy", "clone", "array", "logical_not", "not_equal", "greater", "nonzero") or (isinstance(e.func, _ast.Attribute) and e.func.attr in ("astype", "copy", "clone")):
+                return not any(k.arg == "copy" and isinstance(k.value, _ast.Constant) and k.value.value is False for k in e.keywords)
+            if e.args and copies(e.args[0]):
+                return True
+            if isinstance(e.func, _ast.Attribute) and copies(e.func.value):
+                return True
+        return isinstance(e, (_ast.BinOp, _ast.Compare, _ast.UnaryOp))
+    if ok1:
+        okc = copies(binds[0].value)
+        run.judged(rid, "user path: the stored mask is a copy of the argument (%s)" % src(binds[0].value)[:70], ok=okc)
+        if not okc:
+            run.report("C10.7", ITY, binds[0], "the integrator keeps `%s` as its kick mask: `asarray` returns the caller's own array when it already has the requested dtype, so a mask "
+                       "buffer the caller refills afterwards (to configure another system) silently changes which variables THIS integrator kicks -- the step map stops being "
+                       "the composition of shears it was configured as" % src(binds[0].value)[:60], text="user-mask binding aliases the argument")
     run.judged(rid, "user path: self.staggered_mask bound by %s" % [src(b)[:90] for b in binds], ok=ok1)
     if not ok1:
         run.report("C10.7", ITY, binds[0] if binds else init, "when a kick mask is given, self.staggered_mask is not (only) an elementwise conversion of that argument: the split "
